@@ -9,12 +9,16 @@ HOUT = {'ok': 'HOk', 'raise': 'HRaise', 'notimpl': 'HNotImpl', 'raise_unhashable
 PO = {'ok': 'Pok', 'fail': 'Pfail', 'error': 'Perr', 'skip': 'Pskip', 'exit': 'Perr', 'raise': 'Perr', 'die': 'Pok', 'error_unhashable': 'Perr', 'kbd': 'Pok'}
 
 
+ODD = ['cycle', 'ctxcycle', 'selfcause', 'deep', 'deepctx', 'badstr', 'badrepr', 'group', 'notes', 'args']
+
+
 def po(x):
-    return PO[x[0] if isinstance(x, list) else x]
+    x = x[0] if isinstance(x, list) else x
+    return 'Perr' if x.startswith('error_odd:') else PO[x]
 
 
 def hout(x):
-    return HOUT.get(x, 'HOk')
+    return 'HRaise' if isinstance(x, str) and x.startswith('raise_odd:') else HOUT.get(x, 'HOk')
 PHASE = {'t_setUp': 0, 't_body': 1, 't_sub': 2, 't_tearDown': 3, 't_cleanup': 4}
 
 
@@ -191,9 +195,9 @@ def gen_layers(rng, n, p_hook=0.8, faults=True):
         bases = rng.sample(cand, k)
         hooks = {}
         if rng.random() < p_hook:
-            hooks['setUp'] = rng.choice([['ok']] * 8 + ([['raise'], ['ok', 'raise'], ['raise', 'ok'], ['raise_unhashable']] if faults else []))
+            hooks['setUp'] = rng.choice([['ok']] * 8 + ([['raise'], ['ok', 'raise'], ['raise', 'ok'], ['raise_unhashable'], ['raise_odd:' + rng.choice(ODD)]] if faults else []))
         if rng.random() < p_hook:
-            hooks['tearDown'] = rng.choice([['ok']] * 7 + ([['raise'], ['notimpl'], ['notimpl'], ['notimpl', 'ok'], ['raise_unhashable']] if faults else []))
+            hooks['tearDown'] = rng.choice([['ok']] * 7 + ([['raise'], ['notimpl'], ['notimpl'], ['notimpl', 'ok'], ['raise_unhashable'], ['raise_odd:' + rng.choice(ODD)]] if faults else []))
         if rng.random() < 0.6:
             hooks['testSetUp'] = ['ok']
         if rng.random() < 0.6:
@@ -225,7 +229,7 @@ def gen_test(rng, nlayers, rich=True):
     if rng.random() < 0.3:
         T['subs'] = [rng.choice(['ok', 'ok', 'fail', 'error', 'skip']) for _ in range(rng.randint(1, 3))]
     if rng.random() < 0.4:
-        T['body'] = rng.choice(OUTS_BAD + ['exit', 'error_unhashable'])
+        T['body'] = rng.choice(OUTS_BAD + ['exit', 'error_unhashable', 'error_odd:' + rng.choice(ODD)])
     if rng.random() < 0.2:
         T['tearDown'] = rng.choice(OUTS_BAD)
     if rng.random() < 0.2:
